@@ -311,11 +311,17 @@ class ThreadingApplication(Application):
             try:
                 self._thread_slots.put(None, timeout=5)
             except queue.Full:
-                answer = self.generate_answer(
-                    recv_message,
-                    result_code=constants.E_RESULT_CODE_DIAMETER_TOO_BUSY,
-                    error_message="Insufficient resources to handle the request")
-                self.send_answer(answer)
+                try:
+                    answer = self.generate_answer(
+                        recv_message,
+                        result_code=constants.E_RESULT_CODE_DIAMETER_TOO_BUSY,
+                        error_message="Insufficient resources to handle the request")
+                    self.send_answer(answer)
+                except Exception as e:
+                    logger.warning(
+                        f"{self} failed to reject message "
+                        f"{hex(recv_message.header.hop_by_hop_identifier)}: "
+                        f"{repr(e)}")
                 continue
 
             process_message = threading.Thread(
@@ -341,7 +347,13 @@ class ThreadingApplication(Application):
             except Exception:
                 pass
             if isinstance(resp_message, Message):
-                self.send_answer(resp_message)
+                try:
+                    self.send_answer(resp_message)
+                except Exception as e:
+                    logger.warning(
+                        f"{self} failed to send answer "
+                        f"{hex(resp_message.header.hop_by_hop_identifier)}: "
+                        f"{repr(e)}")
 
     def _process_recv_msg(self, message: Message):
         try:
